@@ -85,6 +85,7 @@ def _c(id, gen, n, rew, episodes, policies, **kw):
 class Adapter(EnvAdapter):
     name = "TSP"
     props = ("C01", "C03", "C04", "C05", "C06", "C08", "C09", "C10", "C11", "C12")
+    gen_heavy = {'u6_dense': (60, 300), 'u3_sparse': (60, 300)}
 
     def configs(self, tier):
         full = ["masked", "nearest", "revisit_at_end", "mostly_masked", "random", "revisit_current"]
